@@ -265,11 +265,12 @@ Definition project (drop : list str) (h : header) : header :=
 
 (* every end-to-end header of [hin] arrives with the same values in the same order, and
    nothing else arrives ([hout] already projected).  User-Agent: an absent one may be
-   represented as the single empty value (Go's way of sending none). *)
-Definition e2e_same (hin hout : header) : bool :=
+   represented as the single empty value (Go's way of sending none).  [hop]: the names that are
+   hop-by-hop for this message (decided on the unprojected header). *)
+Definition e2e_same (hop : str -> bool) (hin hout : header) : bool :=
   let names := map fst hin ++ map fst hout in
   forallb (fun k =>
-    if is_hop hin k then true
+    if hop k then true
     else if beq k k_user_agent && negb (hhas hin k)
          then list_eqb beq (hvalues hout k) [[]] || negb (hhas hout k)
          else list_eqb beq (hvalues hout k) (hvalues hin k)) names.
@@ -286,7 +287,7 @@ Definition spec_forward_rest (o : route_opts) (q : request) (u : upstream) : boo
   beq (up_method u) (rq_method q)
   && beq (up_body u) (rq_body q)
   && beq (up_host u) (spec_host o (rq_host q))
-  && e2e_same (project managed_req (rq_headers q)) (project managed_req (up_headers u))
+  && e2e_same (is_hop (rq_headers q)) (project managed_req (rq_headers q)) (project managed_req (up_headers u))
   && own_hop_ok (rq_headers q) (up_headers u).
 
 Definition spec_forward (o : route_opts) (q : request) (u : upstream) : bool :=
@@ -295,7 +296,7 @@ Definition spec_forward (o : route_opts) (q : request) (u : upstream) : bool :=
 Definition spec_response (drop : list str) (ur cl : response) : bool :=
   (rs_status cl =? rs_status ur)%Z
   && beq (rs_body cl) (rs_body ur)
-  && e2e_same (project drop (rs_headers ur)) (project drop (rs_headers cl))
+  && e2e_same (is_hop (rs_headers ur)) (project drop (rs_headers ur)) (project drop (rs_headers cl))
   && forallb (fun kv => negb (is_hop (rs_headers ur) (fst kv))) (project drop (rs_headers cl)).
 
 (* ---------- known-finding regions (predicates on the input) ---------- *)
@@ -340,3 +341,25 @@ Definition region_gzip_added (q : request) : bool :=
   let h := fwd_headers (rq_headers q) in
   negb (nonempty (hget h k_accept_encoding)) && negb (nonempty (hget h k_range))
   && negb (beq (rq_method q) (bs "HEAD"%string)).
+
+(* 4: over a real connection Go's http.Transport writes only the first User-Agent value, and none
+   when that value is empty: a repeated or an empty User-Agent does not arrive as sent *)
+Definition region_ua_wire (q : request) : bool :=
+  negb (is_hop (rq_headers q) k_user_agent)
+  && match hvalues (rq_headers q) k_user_agent with
+     | [] => false
+     | [v] => negb (nonempty v)
+     | _ => true
+     end.
+(* 5: websocket upgrade: the target URL is built without ForceQuery, a lone trailing '?' is lost *)
+Definition region_ws_lone_q (target : str) : bool :=
+  match raw_query_of target with Some [] => true | _ => false end.
+
+(* ---------- the other ways out of ServeHTTP (http_proxy.go:115-140, http_handler.go:39-66) ----------
+   1 access denied, 2 not authorized, 3 redirect route: no upstream round trip;
+   4..8 the round trip fails: net.Error (not timeout), timeout, io.EOF, context.Canceled, anything else *)
+Definition exit_contacts (kind : N) : bool := 4 <=? kind.
+Definition exit_status (kind : N) (redirect_code : Z) : Z :=
+  if kind =? 1 then 403%Z else if kind =? 2 then 401%Z else if kind =? 3 then redirect_code
+  else if kind =? 4 then 502%Z else if kind =? 5 then 504%Z else if kind =? 6 then 502%Z
+  else if kind =? 7 then 499%Z else 500%Z.
